@@ -39,3 +39,15 @@ prop('C03','exploration','hash-of-delivered-bytes oracle over deliberately poiso
  'Stores chunks in every backend (local, HTTP handler verifying / skip-verify upstream, raw HTTP file server, fake S3, SFTP shim, casync-over-SSH shim, hostile casync server), corrupts one stored object in one of 12 ways, and requires that any chunk delivered through any wrapper stack hashes to the requested ID (same stack after a healthy read, fresh stack), that extract / cat / untar -i / index mount / sparse file fail without emitting wrong bytes, and that a repairing cache heals.',
  'Remote peers are loopback fakes and shims that drive the real client code; SkipVerify is only used upstream of a chunk server.',
  'DESIGN.md 5/C03')
+prop('C04','exploration','three-way comparison (original table, desync reader, independent caibx codec) over generated indexes and every index store kind; prefix and single-field corruption rejection',
+ 'Generated indexes (0..5000 chunks, both digests, any flags) are written by desync, parsed by an independent strict caibx parser and re-read by desync, through local / HTTP / S3 / SFTP / stdin-stdout index stores; every strict prefix and the listed corruptions (decreasing offsets, oversize chunk, wrong digest flag) must be rejected, other field corruptions rejected or harmless; repository fixtures re-encode byte-identically.',
+ 'Independent codec written from the format description, anchored by the casync-made fixtures; S3/SFTP are loopback fakes.',
+ 'DESIGN.md 5/C04')
+prop('C17','exploration','independent match predicate vs. VerifyIndex / verify-index result over generated blobs, batchings and single mutations + progress-event monitor',
+ 'For chunker-made, equal-size and duplicate-ID indexes with 0..700 chunks and n in 1..64, the file is left intact or mutated once (byte flip in first / last / batch-boundary / trailing-batch / duplicate-ID chunk, truncation, extension, swap of equal-size chunks); nil / exit 0 must coincide with the independent predicate, and success must have visited every chunk once.',
+ 'Single mutations only; hashes from the Go standard library.',
+ 'DESIGN.md 5/C17')
+prop('C19','exploration','panic / fatal-error monitor and per-call allocation bound (runtime.MemStats.TotalAlloc) over structured hostile inputs, child under RLIMIT_AS',
+ 'Feeds IndexFromReader, FormatDecoder, ArchiveDecoder, the protocol reader/handshake/request/server and the index PUT handler with every element type x size-field class x body length, truncations and mutations of valid files and protocol messages of every length class; any panic (recovered or fatal), net/http "panic serving" line, or allocation above 1 MiB + 32 bytes per input byte is a violation.',
+ 'Allocation bound constants calibrated on the valid corpus; inputs are structured samples, not all byte strings.',
+ 'DESIGN.md 5/C19')
